@@ -765,12 +765,15 @@ func c01Queries(bc *core.Blockchain, u *c05Universe, o *c01Obs, bad func(string,
 	type qcall struct {
 		group  int
 		handle func(stackitem.Item)
+		script []byte
 	}
 	var calls []qcall
 	call := func(g int, handle func(stackitem.Item), h util.Uint160, m string, args ...any) {
-		emit.AppCall(w.BinWriter, h, m, callflag.ReadOnly, args...)
-		calls = append(calls, qcall{g, handle})
+		cw := io.NewBufBinWriter()
+		emit.AppCall(cw.BinWriter, h, m, callflag.ReadOnly, args...)
+		calls = append(calls, qcall{g, handle, cw.Bytes()})
 	}
+	_ = w
 	contracts := map[int]util.Uint160{}
 	u.mu.Lock()
 	for h, i := range u.idx {
@@ -888,30 +891,86 @@ func c01Queries(bc *core.Blockchain, u *c05Universe, o *c01Obs, bad func(string,
 			}
 		}, polH, "getWhitelistFeeContracts")
 	}
-	ic, err := bc.GetTestVM(trigger.Application, nil, nil)
-	if err != nil {
-		bad("GetTestVM: %v", err)
-		return
+	// The VM counts at most 2048 stack items per execution, every element of every answer left on the stack included.
+	// The calls are therefore spread over several invocations: two getContract calls (a manifest is a few hundred items) or
+	// up to 32 of the small answers per invocation; what one invocation left on the stack is counted afterwards and has to
+	// stay below half the limit -- a harness error (panic) long before the VM could refuse a script of the harness.
+	var items []stackitem.Item
+	var countItems func(it stackitem.Item, depth int) int
+	countItems = func(it stackitem.Item, depth int) int {
+		n := 1
+		if depth > 12 {
+			return n
+		}
+		switch v := it.Value().(type) {
+		case []stackitem.Item:
+			for _, x := range v {
+				n += countItems(x, depth+1)
+			}
+		case []stackitem.MapElement:
+			for _, x := range v {
+				n += countItems(x.Key, depth+1) + countItems(x.Value, depth+1)
+			}
+		}
+		return n
 	}
-	defer ic.Finalize()
-	ic.VM.LoadScriptWithFlags(w.Bytes(), callflag.ReadOnly)
-	ic.VM.SetGasLimit(1000_0000_0000)
-	if err := ic.VM.Run(); err != nil {
-		bad("read-only queries faulted: %v", err)
-		return
-	}
-	items := ic.VM.Estack().ToArray()
-	if len(items) != len(calls) {
-		bad("read-only queries: %d answers for %d calls", len(items), len(calls))
-		return
+	for lo := 0; lo < len(calls); {
+		hi, lim := lo, 32
+		for hi < len(calls) && hi-lo < lim {
+			if calls[hi].group == gContracts || calls[hi].group == gWhitelist {
+				if hi > lo && calls[lo].group != calls[hi].group {
+					break
+				}
+				lim = 2
+			} else if hi > lo && (calls[lo].group == gContracts || calls[lo].group == gWhitelist) {
+				break
+			}
+			hi++
+		}
+		sw := io.NewBufBinWriter()
+		for _, cl := range calls[lo:hi] {
+			sw.WriteBytes(cl.script)
+		}
+		ic, err := bc.GetTestVM(trigger.Application, nil, nil)
+		if err != nil {
+			bad("GetTestVM: %v", err)
+			return
+		}
+		ic.VM.LoadScriptWithFlags(sw.Bytes(), callflag.ReadOnly)
+		ic.VM.SetGasLimit(1000_0000_0000)
+		if err := ic.VM.Run(); err != nil {
+			ic.Finalize()
+			bad("read-only queries faulted: %v", err)
+			return
+		}
+		got := ic.VM.Estack().ToArray()
+		if len(got) != hi-lo {
+			ic.Finalize()
+			bad("read-only queries: %d answers for %d calls", len(got), hi-lo)
+			return
+		}
+		total := 0
+		for i, it := range got {
+			total += countItems(it, 0)
+			// iterators are drained while their invocation is alive
+			if calls[lo+i].group == gWhitelist && calls[lo+i].handle != nil {
+				calls[lo+i].handle(it)
+			}
+		}
+		ic.Finalize()
+		if total > 1024 {
+			panic(fmt.Sprintf("c01Queries: one invocation left %d stack items (calls %d..%d)", total, lo, hi))
+		}
+		items = append(items, got...)
+		lo = hi
 	}
 	parts := make([][][]byte, 8)
 	for i, it := range items {
-		if calls[i].handle != nil {
-			calls[i].handle(it)
-		}
 		if calls[i].group == gWhitelist {
 			continue
+		}
+		if calls[i].handle != nil {
+			calls[i].handle(it)
 		}
 		j, err := stackitem.ToJSONWithTypes(it)
 		if err != nil {
@@ -1018,43 +1077,99 @@ func c01IterQueries(bc *core.Blockchain, u *c05Universe, o *c01Obs, bad func(str
 		seed, opts int
 		natives    bool
 	}
+	// The VM counts at most 2048 stack items per execution (every element of every array an answer holds).  The answers of
+	// ONE invocation therefore stay below c01IterBudget by construction: the size of every answer is known beforehand from
+	// the plain dump of the prefix (8 references per stored pair cover key + value + struct, or a deserialised value of
+	// three fields, and the copy the contract holds while iterating), the queries are spread over as many invocations as
+	// needed, and a prefix too big for one invocation alone is not asked (recorded as such in the digest, identically on
+	// every node since it depends on the node's own storage only).
+	const c01IterBudget = 1400
 	var qs []q
-	w := io.NewBufBinWriter()
 	h := int(bc.BlockHeight())
+	dumps := map[[2]int][][2][]byte{}
+	dumpOf := func(cq c01ContractQ, seed int) [][2][]byte {
+		key := [2]int{cq.ID, seed}
+		pairs, ok := dumps[key]
+		if !ok {
+			bc.SeekStorage(int32(cq.ID), []byte{byte(seed)}, func(k, v []byte) bool {
+				pairs = append(pairs, [2][]byte{append([]byte{byte(seed)}, k...), bytes.Clone(v)})
+				return true
+			})
+			dumps[key] = pairs
+		}
+		return pairs
+	}
+	var items []stackitem.Item
+	var skipped [][]byte
+	w := io.NewBufBinWriter()
+	pending, est := 0, 0
+	run := func() bool {
+		if pending == 0 {
+			return true
+		}
+		if est > c01IterBudget {
+			panic(fmt.Sprintf("c01IterQueries: one invocation would hold about %d stack items", est))
+		}
+		ic, err := bc.GetTestVM(trigger.Application, nil, nil)
+		if err != nil {
+			bad("GetTestVM: %v", err)
+			return false
+		}
+		defer ic.Finalize()
+		ic.VM.LoadScriptWithFlags(w.Bytes(), callflag.ReadOnly)
+		ic.VM.SetGasLimit(1000_0000_0000)
+		if err := ic.VM.Run(); err != nil {
+			bad("iterator queries faulted: %v", err)
+			return false
+		}
+		got := ic.VM.Estack().ToArray()
+		if len(got) != pending {
+			bad("iterator queries: %d answers for %d calls", len(got), pending)
+			return false
+		}
+		items = append(items, got...)
+		w = io.NewBufBinWriter()
+		pending, est = 0, 0
+		return true
+	}
 	for _, cq := range present {
 		for seed := 0; seed < 6; seed++ {
 			list := c01FindOpts
 			if seed >= 4 {
 				list = append(append([]int{}, c01FindOpts...), c01FindOptsDeser...)
 			}
+			cost := 8*len(dumpOf(cq, seed)) + 16
 			for j := 0; j < 3; j++ {
 				opts := list[(h*3+seed*5+cq.A+j*7)%len(list)]
+				if cost > c01IterBudget {
+					skipped = append(skipped, []byte(fmt.Sprintf("not asked: contract %d prefix %d holds %d items", cq.A, seed, len(dumpOf(cq, seed)))))
+					continue
+				}
+				if est+cost > c01IterBudget && !run() {
+					return
+				}
 				emit.AppCall(w.BinWriter, contracts[cq.A], "peek", callflag.ReadOnly, int64(seed), int64(opts))
 				qs = append(qs, q{cq: cq, seed: seed, opts: opts})
+				pending++
+				est += cost
 			}
 		}
 	}
+	if !run() {
+		return
+	}
+	// the natives' iterators (candidates, contract hashes: a few dozen entries) in an invocation of their own
 	emit.AppCall(w.BinWriter, contracts[present[0].A], "peekNatives", callflag.ReadOnly)
 	qs = append(qs, q{cq: present[0], natives: true})
-	ic, err := bc.GetTestVM(trigger.Application, nil, nil)
-	if err != nil {
-		bad("GetTestVM: %v", err)
+	pending, est = 1, 600
+	if !run() {
 		return
 	}
-	defer ic.Finalize()
-	ic.VM.LoadScriptWithFlags(w.Bytes(), callflag.ReadOnly)
-	ic.VM.SetGasLimit(1000_0000_0000)
-	if err := ic.VM.Run(); err != nil {
-		bad("iterator queries faulted: %v", err)
-		return
-	}
-	items := ic.VM.Estack().ToArray()
 	if len(items) != len(qs) {
 		bad("iterator queries: %d answers for %d calls", len(items), len(qs))
 		return
 	}
-	var parts [][]byte
-	dumps := map[[2]int][][2][]byte{}
+	parts := skipped
 	for i, it := range items {
 		arr, ok := it.Value().([]stackitem.Item)
 		if !ok {
@@ -1097,15 +1212,7 @@ func c01IterQueries(bc *core.Blockchain, u *c05Universe, o *c01Obs, bad func(str
 			}
 			continue
 		}
-		key := [2]int{x.cq.ID, x.seed}
-		pairs, ok := dumps[key]
-		if !ok {
-			bc.SeekStorage(int32(x.cq.ID), []byte{byte(x.seed)}, func(k, v []byte) bool {
-				pairs = append(pairs, [2][]byte{append([]byte{byte(x.seed)}, k...), bytes.Clone(v)})
-				return true
-			})
-			dumps[key] = pairs
-		}
+		pairs := dumpOf(x.cq, x.seed)
 		want, err := c01IterExpected(pairs, x.opts)
 		if err != nil {
 			bad("iterator query contract %d prefix %d opts %d: dump not decodable: %v", x.cq.A, x.seed, x.opts, err)
